@@ -96,7 +96,7 @@ type parsedItem struct {
 var (
 	// tolerant of spacing, letter case and $ / 0x prefixes: the property fixes what a line
 	// shows, not its typography
-	reAddrLine = regexp.MustCompile(`^;\s*(?:\$|0x)?([0-9a-fA-F]{6})$`)
+	reAddrLine = regexp.MustCompile(`^;\s*(?:\$|0x)([0-9a-fA-F]{6})$`)
 	reInsTail  = regexp.MustCompile(`;\s*(?:\$|0x)?([0-9a-fA-F]{6})[:\s]\s*((?:[0-9a-fA-F]{2})(?:[ \t]+[0-9a-fA-F]{2})*)(?:[ \t]|$)`)
 	reHexTok   = regexp.MustCompile(`(?:0x|\$)([0-9a-fA-F]{2})\s*,`)
 	reDbTok    = regexp.MustCompile(`^(?:\$|0x)?([0-9a-fA-F]{2})$`)
